@@ -488,7 +488,11 @@ func (self *Runtime) reattachToPipestance(psid string, pipestancePath string,
 		if err != nil {
 			return nil, &PipestancePathError{pipestancePath}
 		}
-		// Check if _invocation has changed.
+		// Check if _invocation has changed.  InvokePipeline expanded env
+		// vars in the invocation source before storing it.
+		if srcType == InvocationFile && !bytes.Equal(src, data) {
+			src = []byte(os.ExpandEnv(string(src)))
+		}
 		if !bytes.Equal(src, data) {
 			return nil, &PipestanceInvocationError{psid, invocationPath}
 		}
